@@ -1,13 +1,13 @@
 CONSTANTS
   NR = 3
   NC = 2
-  NV = 2
+  NV = 1
   WPV = 2
   CPLX = 2
   Ascii = TRUE
   PerLine = 3
   RowOffset = 0
-  WriterOnly = TRUE
+  WriterOnly = FALSE
   Export = TRUE
 INIT Init
 NEXT Next
